@@ -256,4 +256,39 @@ CHECKS = {
                  '"remote file" is its announced prefix'),
         'technique': 'deterministic simulation of two real clients with byte-exact connection faults (enumerated cut axis) + byte-equality/prefix/offset monitors and bounded liveness',
     },
+    'C08': {
+        'category': 'exploration',
+        'text': ('seeded histories (<= 12 steps) of requests by three scripted users (searches over the server, FileSearch, '
+                 'distributed and legacy carriers, shares and directory-content requests, queue / transfer requests for exact, '
+                 'locked, unknown, case- and separator-variant paths) interleaved with configuration changes made through the '
+                 'public settings / shares API (friends, block flags by assignment and in place, share mode and user list, add / '
+                 'remove / rescan a directory, a new server excluded-phrase list in any letter case) and user aborts / pauses, '
+                 'with gaps straddling the 1 s settings poll and the management cycle; everything the client writes is read at a '
+                 'sender-side wire tap and judged against the union of the configurations in force over the observation window by '
+                 'a reference entitlement model (models/entitlement.py); settle clauses (not permitted -> ABORTED with the '
+                 'matching reason, permitted again -> re-queued, user-aborted stays aborted) are evaluated 8 virtual s after the '
+                 'last change and at the end.'),
+        'design_ref': 'DESIGN.md section 3 (C08)',
+        'note': ('refusal frames and replies to users blocked for shares are probes only (the statement does not constrain them); '
+                 'a case / separator / alias variant of a path denotes the file it was derived from; file bytes are judged against '
+                 'the configurations of the preceding 8 s; no share operation overlaps a running scan (that is C07)'),
+        'technique': 'deterministic simulation (real client, scripted server / users, settings poll and management cycles on the virtual clock) + reference entitlement model over sender-side observations',
+    },
+    'C09': {
+        'category': 'exploration',
+        'text': ('1-3 concurrent downloads of equally or differently named remote paths from scripted uploaders, with planned '
+                 'executor delays on the exists / makedirs / open jobs (the check-then-create window), <= 12 pre-existing entries '
+                 'in the download directory (files, directories, numbered look-alikes, regex-special names) and every ordered '
+                 'subset of the shipped strategies as chain (16 chains x 22 remote-path classes x {empty, name taken} enumerated '
+                 'in the corpus); a loop monitor compares each chosen local path with a listing of the sandbox taken at the end of '
+                 'the previous iteration: inside the download directory, a regular name, not existing, not shared by two active '
+                 'downloads; effect-level backstops: nothing created outside the directory, pre-existing files unchanged, every '
+                 'COMPLETE file equals its source.'),
+        'design_ref': 'DESIGN.md section 3 (C09)',
+        'note': ('the mapping remote path -> local path on a fixed directory is a pure function: that half is sampled along the '
+                 'simulated runs, not decided (DESIGN.md section 4); the schedule half (two start-ups interleaving) is what the '
+                 'simulator decides; a refused path (download FAILED without a local path) is accepted; symbolic links, NUL and '
+                 'Windows path semantics are not generated; two open findings for chains that do not end in number-duplicates'),
+        'technique': 'deterministic simulation (inline executor with planned delays on the path jobs, tmpfs download directory) + per-iteration path oracle and effect-level comparison',
+    },
 }
